@@ -27,6 +27,26 @@ type CalibrationResult struct {
 	FailingNotes []string
 }
 
+// LoadSemantics parses the semantics gold file and returns the program and its definition names.
+func LoadSemantics(repo string) (*Program, []string, error) {
+	path := filepath.Join(repo, "internal/examples/semantics/semantics.gold.v")
+	b, err := os.ReadFile(path)
+	if err != nil {
+		return nil, nil, err
+	}
+	f, err := vread.ParseFile(string(b))
+	if err != nil {
+		return nil, nil, fmt.Errorf("semantics.gold.v does not parse: %v", err)
+	}
+	prog := Load("semantics", map[string]*vread.File{"semantics": f})
+	var names []string
+	for _, d := range prog.Main.Defs {
+		names = append(names, d.S.Name)
+	}
+	sort.Strings(names)
+	return prog, names, nil
+}
+
 // Calibrate runs every test*/failing_test* definition of the semantics gold
 // file in the given repository tree.
 func Calibrate(repo string) (*CalibrationResult, error) {
